@@ -4,6 +4,7 @@ import (
 	"container/list"
 	"fmt"
 	"strings"
+	"time"
 
 	"github.com/6tail/lunar-go/calendar"
 )
@@ -14,6 +15,52 @@ type Day struct {
 	Ymd        string
 	S          *calendar.Solar
 	l          *calendar.Lunar
+}
+
+// RouteSolar is a civil date object for a sweep day obtained through one of the public routes.
+type RouteSolar struct {
+	Name string
+	S    *calendar.Solar
+}
+
+// SolarRoutes returns objects for this day's 00:00:00 / noon obtained through every public route other than
+// NewSolarFromYmd: from the Julian Day of an instant in the last half second of the previous day (the seconds
+// round up and carry), from the noon Julian Day, by stepping from the previous day, through the lunar date and
+// from a time.Time. A route that panics or yields other year/month/day fields is dropped here (C04/C07/C01 judge
+// those); the callers compare what the objects *answer*.
+func (d *Day) SolarRoutes(prev *Day, viaLunar bool) []RouteSolar {
+	var out []RouteSolar
+	add := func(name string, f func() *calendar.Solar) {
+		var s *calendar.Solar
+		if _, p := try(func() { s = f() }); p || s == nil {
+			return
+		}
+		if s.GetYear() != d.Y || s.GetMonth() != d.M || s.GetDay() != d.D {
+			return
+		}
+		out = append(out, RouteSolar{name, s})
+	}
+	add("NewSolarFromJulianDay(last 0.3 s of the previous day)", func() *calendar.Solar {
+		return calendar.NewSolarFromJulianDay(float64(d.J) - 0.5 - 0.3/86400)
+	})
+	add("NewSolarFromJulianDay(noon)", func() *calendar.Solar { return calendar.NewSolarFromJulianDay(float64(d.J)) })
+	if prev != nil && prev.J == d.J-1 {
+		add("previous day.NextDay(1)", func() *calendar.Solar { return prev.S.NextDay(1) })
+		add("previous day 23:59:59 .NextHour(1)", func() *calendar.Solar {
+			return calendar.NewSolar(prev.Y, prev.M, prev.D, 23, 59, 59).NextHour(1)
+		})
+	}
+	if viaLunar {
+		add("GetLunar().GetSolar()", func() *calendar.Solar { return d.L().GetSolar() })
+	}
+	add("NewSolarFromDate", func() *calendar.Solar {
+		t := time.Date(d.Y, time.Month(d.M), d.D, 12, 0, 0, 999999999, time.UTC)
+		if t.Year() != d.Y || int(t.Month()) != d.M || t.Day() != d.D {
+			return nil
+		}
+		return calendar.NewSolarFromDate(t)
+	})
+	return out
 }
 
 func (d *Day) L() *calendar.Lunar {
